@@ -787,6 +787,95 @@ def hcase_to_coq(c):
     return "{| hc_id := %d; hc_actions := %s; hc_obs := %s |}" % (c["id"], coq_list(acts), coq_list(obs))
 
 
+def all_streams(st):
+    """the streams of a step, those of the members of a group step included"""
+    return (st.get("streams") or []) + [s_ for m in st.get("members") or [] for s_ in m["streams"]]
+
+
+def has_group(c):
+    return any(st["k"] == "group" for st in c["steps"])
+
+
+def scase_to_coq(c):
+    """a history of pushes, resets and group steps (pushes whose series rows share one INSERT) for model/SharedInsert.v"""
+    fpid = {}
+
+    def fid(fp):
+        return fpid.setdefault(str(fp), len(fpid) + 1)
+
+    tf = lambda b: "true" if b else "false"
+
+    def streams(ss):
+        return coq_list(["{| s_fp := %d; s_entries := %s |}" % (fid(s_["fp"]), coq_list(
+            ["{| e_ts := %s; e_type := %s |}" % (coq_u64(e["ts"]), TNAME[e["t"]]) for e in s_["entries"]])) for s_ in ss])
+
+    def insert(cl):
+        return "(%s, %s)" % (coq_list(["(%s, %d, %s)" % (r[0], fid(r[1]), r[2]) for r in cl["rows"] or []]), tf(cl["ok"]))
+
+    def spl(calls):
+        return coq_list(["(%d, day_of %s, %s)" % (fid(r[0]), coq_u64(r[1]), r[2]) for cl in calls for r in cl["rows"] or []])
+
+    ok2 = lambda code: 200 <= code < 300
+    acts, acks, inserts, samples = [], [], [], []
+    for st, ob in zip(c["steps"], c["obs"]):
+        k = st["k"]
+        calls = ob.get("calls") or []
+        ts_calls = [cl for cl in calls if cl["table"] == "time_series"]
+        if k == "reset":
+            acts.append("SReset")
+        elif k == "push":
+            acts += ["SArrive %s %s" % (streams(st["streams"]), tf(st["spl_ok"])), "SSwap", "SAnswer %s" % tf(st["ts_ok"])]
+            acks.append(tf(ok2(ob["status"])))
+            inserts += [insert(cl) for cl in ts_calls]
+            samples.append(spl([cl for cl in calls if cl["table"] == "samples"]))
+        elif k == "group":
+            ms = st["members"]
+            arrive = ["SArrive %s %s" % (streams(m["streams"]), tf(m["spl_ok"])) for m in ms]
+            a0, a = tf(st.get("ts_ok0", False)), tf(st["ts_ok"])
+            if ob.get("shared"):
+                # the INSERT of the first member waited inside the client until the Request of every other member had returned
+                acts += [arrive[0], "SSwap"] + arrive[1:] + ["SAnswer " + a0, "SSwap", "SAnswer " + a]
+            else:
+                # no INSERT was kept waiting (the first member announced nothing): one after the other
+                for i, x in enumerate(arrive):
+                    acts += [x, "SSwap", "SAnswer " + (a0 if i == 0 else a)]
+            acks += [tf(ok2(code)) for code in ob.get("statuses") or []]
+            inserts += [insert(cl) for cl in ts_calls]
+            for i in range(len(ms)):
+                samples.append(spl([cl for cl in calls if cl["table"] == "samples" and cl.get("m", 0) == i]))
+        else:
+            raise ValueError("step kind %r in a history with a group step" % k)
+    return "{| sc_id := %d; sc_actions := %s; sc_acks := %s; sc_inserts := %s; sc_samples := %s |}" % (
+        c["id"], coq_list(acts), coq_list(acks), coq_list(inserts), coq_list(samples))
+
+
+def eval_scases(ck, name, cases):
+    txt = ("From Coq Require Import List ZArith Bool Uint63.\n"
+           "From Qryn Require Import model.Labels model.SeriesIndex model.SharedInsert.\n"
+           "Import ListNotations.\nOpen Scope Z_scope.\n"
+           "Definition cases : list scase := [\n  " + ";\n  ".join(scase_to_coq(c) for c in cases) + "].\n"
+           "Definition R := Eval vm_compute in sreport cases.\nPrint R.\n")
+    rc, out = ck.coq_eval(name, txt)
+    if rc != 0:
+        return None, out
+    return parse_report(out, H_LISTS), out
+
+
+def eval_cases(ck, name, cases):
+    """histories with a group step are judged by model/SharedInsert.v, the others by model/SeriesIndex.v"""
+    res, outs = {k: [] for k in H_LISTS}, ""
+    for tag, part, fn in (("", [c for c in cases if not has_group(c)], eval_hcases), ("_s", [c for c in cases if has_group(c)], eval_scases)):
+        if not part:
+            continue
+        r, out = fn(ck, name + tag, part)
+        outs += out
+        if r is None:
+            return None, out
+        for k in H_LISTS:
+            res[k] += r[k]
+    return res, outs
+
+
 def eval_hcases(ck, name, cases):
     txt = ("From Coq Require Import List ZArith Bool Uint63.\n"
            "From Qryn Require Import model.Labels model.SeriesIndex.\n"
@@ -851,6 +940,25 @@ def _candidates(steps):
         else:
             keep = [j for j in range(n) if j != i]
         yield _rebuild(steps, refs, keep)
+    for i in range(n):                                   # drop one member of a group (not the first: its INSERT is the one kept waiting)
+        ms = steps[i].get("members") or []
+        for j in range(1, len(ms)):
+            if len(ms) > 2:
+                c = json.loads(json.dumps(steps))
+                del c[i]["members"][j]
+                yield _rebuild(c, refs, list(range(n)))
+        for j, m in enumerate(ms):                       # ... one stream / one entry of a member
+            for x in range(len(m["streams"])):
+                if len(m["streams"]) > 1:
+                    c = json.loads(json.dumps(steps))
+                    del c[i]["members"][j]["streams"][x]
+                    yield _rebuild(c, refs, list(range(n)))
+                es = m["streams"][x]["entries"]
+                for e in range(len(es)):
+                    if len(es) > 1:
+                        c = json.loads(json.dumps(steps))
+                        del c[i]["members"][j]["streams"][x]["entries"][e]
+                        yield _rebuild(c, refs, list(range(n)))
     for i in range(n):                                   # drop one stream / one entry
         ss = steps[i].get("streams") or []
         flushing = steps[i]["k"] in ("beginf", "moref")
@@ -885,7 +993,7 @@ def shrink_hist(ck, case, rounds=12):
                 break
             ran = [json.loads(l) for l in open(outp)]
             ran = [c for c in ran if not c.get("panic")]
-            r, _ = eval_hcases(ck, "C04_shrink_%d" % rnd, ran)
+            r, _ = eval_cases(ck, "C04_shrink_%d" % rnd, ran)
             if not r or not r["V_hist"]:
                 break
             cur = min((c for c in ran if c["id"] in set(r["V_hist"])), key=lambda c: len(json.dumps(c["steps"])))
@@ -898,7 +1006,7 @@ def shrink_hist(ck, case, rounds=12):
                 f.write(json.dumps({"id": 0, "class": "shrink", "steps": cur["steps"]}) + "\n")
             rc, _ = ck.go_run("seriesid", ["--mode", "hist", "--cases", inp, "--out", outp])
             ran = [json.loads(l) for l in open(outp)] if rc == 0 else []
-            r, _ = eval_hcases(ck, "C04_shrink_final", [c for c in ran if not c.get("panic")]) if ran else (None, "")
+            r, _ = eval_cases(ck, "C04_shrink_final", [c for c in ran if not c.get("panic")]) if ran else (None, "")
             if not r or not r["V_hist"]:
                 ck.log("the shrunk history does not violate when run alone: the generated history is reported")
                 return case
@@ -918,7 +1026,7 @@ def hdoc_to_coq(c):
     labels = {}
     rows = []
     for st, ob in zip(c["steps"], c["obs"]):
-        for s_ in st.get("streams") or []:
+        for s_ in all_streams(st):
             labels.setdefault(fid(s_["fp"]), s_.get("san") or [])
         for cl in ob.get("calls") or []:
             if cl["table"] == "time_series":
@@ -934,6 +1042,14 @@ def show_hist(c):
         k = st["k"]
         if k == "reset":
             out.append("cache reset")
+            continue
+        if k == "group":
+            sh = lambda ss: [{"labels": s_.get("labels") or ("pool set %d" % s_["ls"]), "fingerprint": s_["fp"], "entries": s_["entries"]} for s_ in ss]
+            out.append({"pushes that arrive one after the other while ClickHouse is slow to answer the time_series INSERT of the first one (the series rows of the others wait in one pending buffer of the insert service and go out in ONE INSERT)":
+                        [{"push": sh(m["streams"]), "samples insert": "ok" if m["spl_ok"] else "FAILS", "status": code} for m, code in zip(st["members"], ob.get("statuses") or [None] * len(st["members"]))],
+                        "scripted": {"time_series INSERT of the first push": "ok" if st.get("ts_ok0") else "FAILS", "the shared time_series INSERT": "ok" if st["ts_ok"] else "FAILS"},
+                        "an INSERT was kept waiting": bool(ob.get("shared")),
+                        "inserts": [{"table": cl["table"], "ok": cl["ok"], "rows": cl["rows"], **({"kept waiting": True} if cl.get("tag") == "held" else {})} for cl in ob["calls"] or []]})
             continue
         d = {}
         streams = [{"labels": s_.get("labels") or ("pool set %d" % s_["ls"]), "fingerprint": s_["fp"], "entries": s_["entries"]} for s_ in st.get("streams") or []]
@@ -984,7 +1100,7 @@ def run_hist(ck):
         return
     cases += [json.loads(l) for l in open(outp)]
     byid = {c["id"]: c for c in cases}
-    size = lambda c: (len(c["steps"]), sum(len(s_["entries"]) for st in c["steps"] for s_ in st.get("streams") or []))
+    size = lambda c: (len(c["steps"]), sum(len(s_["entries"]) for st in c["steps"] for s_ in all_streams(st)))
     panics = [c for c in cases if c.get("panic")]
     for c in sorted(panics, key=size)[:1]:
         ck.violation({"property": "C04", "part": "hist", "kind": "panic while replaying a history", "case": c,
@@ -993,7 +1109,7 @@ def run_hist(ck):
     res = {k: [] for k in H_LISTS}
     shard = 500
     for k in range(0, len(ok), shard):
-        r, out = eval_hcases(ck, "C04_hist_%d" % (k // shard), ok[k:k + shard])
+        r, out = eval_cases(ck, "C04_hist_%d" % (k // shard), ok[k:k + shard])
         if r is None:
             ck.obligation("history cases evaluated inside Coq", False, out[-1500:])
             return
@@ -1018,7 +1134,7 @@ def run_hist(ck):
         ck.violation({"property": "C04", "part": "hist", "kind": "a series row carries a labels text that does not decode to the labels of the stream with its fingerprint",
                       "case": c, "readable": show_hist(c), "explanation": "hd_bad (model/SeriesDoc.v)",
                       "replay": "seriesid --mode hist --cases <file with this case>"})
-    ck.obligation("correspondence: model SeriesIndex.run_obs = implementation (status, series rows sent, samples sent) on %d histories" % len(ok),
+    ck.obligation("correspondence: model SeriesIndex.run_obs = implementation (status, series rows sent, samples sent) on %d histories; model SharedInsert.srun append_all = implementation (answer to every request, rows and outcome of every time_series INSERT in order) on %d histories with pushes that share an INSERT" % (len([c for c in ok if not has_group(c)]), len([c for c in ok if has_group(c)])),
                   not res["M_hist"] and not panics, "mismatching case ids: %s" % res["M_hist"][:10])
     ck.obligation("spec: every acknowledged sample has a successfully inserted series row of its day and type, in every history (insert failures per chunk, retries, malformed bodies, overlapping pushes, requests above 1 MiB sent in several chunks, resets)",
                   not res["V_hist"], "case ids: %s" % res["V_hist"][:10])
@@ -1032,7 +1148,7 @@ def run_hist(ck):
                 f.write(json.dumps({"id": cand["id"], "class": cand["class"], "steps": cand["steps"]}) + "\n")
             rc1, _ = ck.go_run("seriesid", ["--mode", "hist", "--cases", inp, "--out", outp1])
             ran = [json.loads(l) for l in open(outp1)] if rc1 == 0 else []
-            r1, _ = eval_hcases(ck, "C04_alone_%d" % cand["id"], [x for x in ran if not x.get("panic")]) if ran else (None, "")
+            r1, _ = eval_cases(ck, "C04_alone_%d" % cand["id"], [x for x in ran if not x.get("panic")]) if ran else (None, "")
             if r1 and r1["V_hist"]:
                 c0 = ran[0]
                 break
@@ -1050,7 +1166,7 @@ def run_hist(ck):
     kinds = {}
     for c in cases:
         hist[c["class"]] = hist.get(c["class"], 0) + 1
-        if sum(1 for st in c["steps"] if st["k"] in ("push", "bad", "begin", "beginf")) >= 2:
+        if sum(len(st["members"]) if st["k"] == "group" else 1 for st in c["steps"] if st["k"] in ("push", "bad", "begin", "beginf", "group")) >= 2:
             distinct.add(json.dumps(c["steps"]))
         for st in c["steps"]:
             kinds[st["k"]] = kinds.get(st["k"], 0) + 1
@@ -1062,7 +1178,7 @@ def run_hist(ck):
                             "push whose body is malformed after its streams, push whose body stays open while other steps run and is completed or continued malformed later in any order, cache reset) "
                             "with scripted outcomes of the series and the samples insert; histories of 3..12 steps around requests above 1 MiB (a stream with a log line of 1.1 MB makes onEntries hand over the chunk collected so far while the body stays open: "
                             "begin + flush, further streams - often the same series again - with or without another flush, end or malformed continuation, each chunk's two inserts with their own scripted outcomes, "
-                            "ordinary pushes of the same series in between, up to two such requests open at once, the whole long request sent again, resets), 30 histories enumerated over (2..4 chunks each announcing series of its own, the failing chunk, its failing insert: series / samples / both, or every series insert failing) followed by the client's second attempt (the long request again, its streams as one push, or chunk by chunk), plus 36 two-series histories whose announcement keys agree on the low / middle / high 32 bits, run through the in-process writer built by the production wiring (plugin.CreateStaticServiceRegistry: real GoCache and serializer); non-trivial = at least 2 pushes, distinct by content. ")
+                            "ordinary pushes of the same series in between, up to two such requests open at once, the whole long request sent again, resets), 24 histories enumerated over (2..3 pushes that arrive while the time_series INSERT of a first push is waiting for ClickHouse and announce the same new series / a chain of series neighbours have in common / two series one of which the waiting INSERT carries too; outcome of the waiting INSERT; outcome of the shared INSERT) with a samples failure here and there, before them sometimes a failed or a successful announcement of the series, after them every client again (pushes, or another group; sometimes a reset first), 30 histories enumerated over (2..4 chunks each announcing series of its own, the failing chunk, its failing insert: series / samples / both, or every series insert failing) followed by the client's second attempt (the long request again, its streams as one push, or chunk by chunk), plus 36 two-series histories whose announcement keys agree on the low / middle / high 32 bits, run through the in-process writer built by the production wiring (plugin.CreateStaticServiceRegistry: real GoCache and serializer); non-trivial = at least 2 pushes, distinct by content. ")
     ck.extra["hist_input_classes"] = hist
     ck.extra["hist_step_kinds"] = kinds
     nover = sum(1 for c in cases if c["class"].startswith("overlap"))
@@ -1091,7 +1207,24 @@ def run_hist(ck):
     ck.extra["hist_retry_after_chunked_request"] = {"histories": len(rcases), "by number of chunks of the failed request": pat}
     ck.obligation("histories in which a request sent in 2..4 chunks fails on one insert (every chunk position, series / samples / both, or every series insert) and the client comes again were generated and ran as intended (5xx, then an acknowledged push)",
                   len(rcases) >= 25, "%d such histories %s" % (len(rcases), pat))
-    ck.add_samples([show_hist(c) for c in cases if len(c["steps"]) >= 2][:1])
+    # pushes whose series rows share one INSERT of the real insert service (round 6)
+    def shared_members(st, ob):
+        """members (not the first) whose series appear in the ONE time_series INSERT that followed the one kept waiting"""
+        later = [cl for cl in ob.get("calls") or [] if cl["table"] == "time_series" and cl.get("tag") != "held"]
+        if not ob.get("shared") or len(later) != 1:
+            return 0
+        fps = {r[1] for r in later[0]["rows"] or []}
+        return sum(1 for m in st["members"][1:] if any(s_["fp"] in fps for s_ in m["streams"]))
+    gsteps = [(st, ob) for c in cases for st, ob in zip(c["steps"], c["obs"]) if st["k"] == "group"]
+    nsh = sum(1 for st, ob in gsteps if shared_members(st, ob) >= 2)
+    nshfail = sum(1 for st, ob in gsteps if shared_members(st, ob) >= 2 and not st["ts_ok"])
+    nshmixed = sum(1 for st, ob in gsteps if shared_members(st, ob) >= 2 and len({200 <= x < 300 for x in ob.get("statuses") or []}) == 2)
+    ck.extra["hist_shared_insert"] = {"group steps": len(gsteps), "one INSERT carried the series rows of >= 2 requests": nsh,
+                                      "of these the shared INSERT failed": nshfail, "of these some requests were answered 2xx and some 5xx": nshmixed,
+                                      "requests in group steps": sum(len(st["members"]) for st, _ in gsteps)}
+    ck.obligation("histories in which the series rows of two or more requests wait in one pending buffer of the REAL time_series insert service and go out in one INSERT were generated and ran as intended (an INSERT kept waiting inside the client, the Request of every other push returned meanwhile, one INSERT afterwards), some with that INSERT failing",
+                  nsh >= 15 and nshfail >= 6, "%d group steps, %d with a shared INSERT, %d of them failing" % (len(gsteps), nsh, nshfail))
+    ck.add_samples([show_hist(c) for c in cases if len(c["steps"]) >= 2 and not has_group(c)][:1] + [show_hist(c) for c in cases if has_group(c)][:1])
 
 
 # ------------------------------------------------------------------------------------------ cache keys
@@ -1232,7 +1365,7 @@ def run(ck):
         "C04: fingerprint injectivity is conditional on collision-freeness hypotheses that are tested, not proved",
         "C04 protocols: unicode.Is(unicode.L, r) above U+007F is an oracle table per ddtags text (the theorems hold for every oracle); Go's regexp semantics for tagPattern (leftmost, greedy; unique match per start rune) is argued in model/DdTags.v and checked by the correspondence on texts with junk; encoding/json's string encoder, base64.StdEncoding and strconv.FormatFloat (C15's model/GoFloat.v) are transcribed and checked by the correspondence on OTLP any-value trees",
         "C04 decode side: the reader's Go decoder (storedLabels) is RUN on every generated document; the SQL side (JSONExtractKeysAndValues / mapFromArrays) is represented as in C07/C17 (SqlEval.label_of over the key/value list) and label_document_meets_sql_reader proves the stored text meets that representation's premises (object of strings, distinct keys); ClickHouse itself is not available",
-        "C04 histories: the (day, fingerprint, type) cache key CH64(day || fp || type) is modelled as the triple itself (no collisions); fastcache has no false positives; the cache is the production GoCache; a cache reset runs the ticker's body through hook VerifC04Reset; CH64 collision-freeness of the 64-bit key is a hypothesis of announcement_cache_refines; the mid-request flush above 1 MiB is modelled (Flush k: the chunk of the k-th open request is sent with its own insert outcomes; More k: it parses further streams; the model allows a flush at any stream boundary) and driven with real 1.1 MB log lines, one flush / continuation / completion at a time: the two inserts of a chunk are one atomic step of the model, so are the last chunk's inserts, the decision over all chunks and the cache update (End); chunks of different requests never share an INSERT batch in the runs (the insert service would couple their outcomes; the theorems quantify over all outcomes); single node (the cache is disabled in cluster mode); overlapping requests are driven through bodies that stay open (io.Pipe)",
+        "C04 histories: the (day, fingerprint, type) cache key CH64(day || fp || type) is modelled as the triple itself (no collisions); fastcache has no false positives; the cache is the production GoCache; a cache reset runs the ticker's body through hook VerifC04Reset; CH64 collision-freeness of the 64-bit key is a hypothesis of announcement_cache_refines; the mid-request flush above 1 MiB is modelled (Flush k: the chunk of the k-th open request is sent with its own insert outcomes; More k: it parses further streams; the model allows a flush at any stream boundary) and driven with real 1.1 MB log lines, one flush / continuation / completion at a time: the two inserts of a chunk are one atomic step of the model, so are the last chunk's inserts, the decision over all chunks and the cache update (End); the insert services are the real ones (writer/service + writer/service/impl, built by the production wiring, PushInterval 1 ms); in the histories of model/SeriesIndex.v every request's rows travel in an INSERT of their own; histories of class shared-insert make the rows of several one-chunk requests share ONE INSERT (the fake client keeps the INSERT of a first push waiting, the harness sees the Request of every other push return through a counting pass-through in front of the real time_series service - the only thing in the registry that is not the plugin's) and are judged by model/SharedInsert.v (requests of one chunk; the samples insert of a request is not batched with others); requests of several chunks that share an INSERT with other requests are not driven; single node (the cache is disabled in cluster mode); overlapping requests are driven through bodies that stay open (io.Pipe)",
         "C04 dates: ch-go's ToDate and Go's time.Truncate are transcribed (checked by the correspondence over 32 zones); the reader's own zone (upper date bound) belongs to C13",
     ]
     ck.coq_props()
